@@ -53,8 +53,7 @@ class COOType(types.Type):
 
     @property
     def shape_type(self):
-        dt = numba.np.numpy_support.from_dtype(self.coords_dtype)
-        return types.UniTuple(dt, self.ndim)
+        return types.UniTuple(types.intp, self.ndim)
 
     @property
     def fill_value_type(self):
@@ -98,7 +97,7 @@ def impl_COO(context, builder, sig, args):
     coo = cgutils.create_struct_proxy(typ)(context, builder)
     coo.coords = coords
     coo.data = data
-    coo.shape = shape
+    coo.shape = context.cast(builder, shape, sig.args[2], typ.shape_type)
     coo.fill_value = context.get_constant_generic(builder, typ.fill_value_type, _zero_of_dtype(typ.data_dtype))
     return impl_ret_borrowed(context, builder, sig.return_type, coo._getvalue())
 
